@@ -15,7 +15,7 @@ import Lc.Props.C12
 
 namespace Lc.Props.C03
 open Lc.SortByAux
-open Lc Lc.Layers Lc.Mountinfo Lc.Trace Lc.UmountTrace Lc.Kernel Lc.KernelUmount Lc.UmountState
+open Lc Lc.Layers Lc.Mountinfo Lc.Trace Lc.UmountTrace Lc.Kernel Lc.KernelUmount Lc.UmountState Lc.KernelResolve
 
 /-! ### what `getMountAndSubmounts` returns -/
 
@@ -363,10 +363,16 @@ end Example
   `Plain w`: no pretend switch, no injected fault or crash.  `atOrBelow bp q`: `q` is `bp` or
   starts with `bp ++ "/"` — the region test of `getMountAndSubmounts`.  `kumountSeq t ts`: the
   kernel model's `kumount` applied to the targets `ts` in order, stopping at the first refusal:
-  (targets done, table reached, error).  `KWF`: ids unique, nobody its own parent, an entry lies
-  at/below its parent's mountpoint, an entry stacked on its parent's mountpoint is listed after
-  it — an invariant of the kernel model (`KTWF_empty`, `kmount_KTWF`, `kumount_KTWF` in
-  Lemmas/KernelUmount). -/
+  (targets done, table reached, error).  The kernel model resolves a path through the mount
+  tree (`Kernel.resolve`): a mount below a mount stacked later on one of its ancestors is hidden
+  and cannot be unmounted by path (EINVAL).  `KWF` (= `KernelResolve.Tree`): ids unique, nobody
+  its own parent, parents listed before children, an entry at/below its parent's mountpoint — an
+  invariant of the kernel model (`KTWF_empty`, `kmount_KTWF`, `kumount_KTWF` in
+  Lemmas/KernelUmount).  `NoHidden`: moreover the mountpoints of two entries below the same
+  parent are never nested, i.e. nothing is covered; kept by `kumount` (`kumount_noHidden`) and by
+  every mount on a target below which nothing is mounted (`addMount_noHidden`, `kmount_noHidden`);
+  on such tables the lookup is the flat reading of the table (`resolve_eq_findContaining`,
+  `mountedAt_eq_topmostAt`). -/
 
 /-- **ViewAgrees**: the layer's `mounts` list was filled by `getMountAndSubmounts` from a
     cached table `view` that shows, at or below the build root `bp`, the same mountpoints in
@@ -478,15 +484,16 @@ theorem umountCmd_clears_buildroot (cfg : Config) (d : Defs) (name : Bytes) (w :
     exact umount_clears_buildroot cfg d name w l d' hl hw hids hview (hN d' hok)
 
 /-- **umount_no_call_refused** (GOAL A1, the part "kumount succeeds on a leaf"): plain world,
-    well-formed kernel table (`KWF`), view agreeing with the table on the region, build root
-    not "/", idle layer.  Then the kernel refuses NONE of the unmount calls (no EBUSY because of
+    kernel table without hidden mounts (`NoHidden`; `umount_hidden_submount_witness` shows that
+    the tree discipline alone does not suffice), view agreeing with the table on the region,
+    build root not "/", idle layer.  Then the kernel refuses NONE of the unmount calls (no EBUSY because of
     `umount_leaf_order`: when a target's turn comes nothing is mounted beneath it any more; no
     EINVAL because every target is a current mountpoint), so on EVERY exit of `unmountLayer`
     the table is the initial one without the region; and when the layer had mounts a normal
     return has status `ok`.  (The only error exit left is a panic of the re-probe after the
     loop, which does not touch the world.) -/
 theorem umount_no_call_refused (cfg : Config) (d : Defs) (name : Bytes) (w : World) (l : Layer)
-    (hl : findLayer d name = some l) (hw : Plain w) (hwf : KWF w.kt.mnts)
+    (hl : findLayer d name = some l) (hw : Plain w) (hwf : NoHidden w.kt.mnts)
     (hview : ViewAgrees l (buildPath cfg l) w.kt) (hbp : buildPath cfg l ≠ b!"/")
     (hb : isBusy l false = false) :
     (kumountSeq w.kt (issueOrder l)).2.2 = none ∧
@@ -523,8 +530,10 @@ theorem umount_no_call_refused (cfg : Config) (d : Defs) (name : Bytes) (w : Wor
       its mountpoints together with `done` are exactly the initial mountpoints — the initial
       table minus one (the topmost) entry per successfully unmounted target —, and every mount
       outside the build root is still there;
-    * the refusal is EINVAL with nothing mounted at the target, or EBUSY with a mount whose
-      parent is the topmost mount at the target;  the file system is untouched. -/
+    * the refusal is EINVAL with no lookup ending on a mount at the target (nothing mounted there
+      or, `mountedAt_none_noHidden` excluding it only for tables without hidden mounts, what is
+      mounted there is hidden), or EBUSY with a mount whose parent is the mount found at the
+      target;  the file system is untouched. -/
 theorem umount_failure_keeps_prefix (cfg : Config) (d : Defs) (name : Bytes) (w : World) (l : Layer)
     (hl : findLayer d name = some l) (hw : Plain w) (hids : (w.kt.mnts.map (·.id)).Nodup)
     (hb : isBusy l false = false) (hm : l.mounts.length ≠ 0)
@@ -533,8 +542,8 @@ theorem umount_failure_keeps_prefix (cfg : Config) (d : Defs) (name : Bytes) (w 
     ((unmountLayer cfg d name).run.run w).1 = .error (.err ("sys:" ++ e.str)) ∧
     (∃ p rest, issueOrder l = (kumountSeq w.kt (issueOrder l)).1 ++ p :: rest ∧
       kumount ((unmountLayer cfg d name).run.run w).2.kt p = .error e ∧
-      ((e = .einval ∧ ∀ x ∈ ((unmountLayer cfg d name).run.run w).2.kt.mnts, x.mp ≠ p) ∨
-       (e = .ebusy ∧ ∃ m, topmostAt ((unmountLayer cfg d name).run.run w).2.kt.mnts p = some m ∧
+      ((e = .einval ∧ mountedAt ((unmountLayer cfg d name).run.run w).2.kt.mnts p = none) ∨
+       (e = .ebusy ∧ ∃ m, mountedAt ((unmountLayer cfg d name).run.run w).2.kt.mnts p = some m ∧
           ∃ c ∈ ((unmountLayer cfg d name).run.run w).2.kt.mnts, c.parent = m.id))) ∧
     ((unmountLayer cfg d name).run.run w).2.kt.mnts.Sublist w.kt.mnts ∧
     (w.kt.mnts.map (·.mp)).Perm ((kumountSeq w.kt (issueOrder l)).1 ++
@@ -601,7 +610,7 @@ example : findLayer d2 b!"x" = some l2 ∧ isBusy l2 false = false ∧ l2.mounts
 example : Plain w2 := ⟨rfl, rfl, rfl⟩
 example : buildPath Example.cfg0 l2 = b!"/b/L/x/build" := by decide
 example : ViewAgrees l2 (buildPath Example.cfg0 l2) w2.kt := ⟨view2, by rfl, by decide⟩
-example : KWF w2.kt.mnts := ⟨by decide, by decide, by decide, by decide⟩
+example : NoHidden w2.kt.mnts := ⟨⟨by decide, by decide, by decide, by decide⟩, by decide⟩
 /-- deepest first; the two stacked mounts are two calls on the same target -/
 example : issueOrder l2 = [b!"/b/L/x/build/proc", b!"/b/L/x/build/dev/shm", b!"/b/L/x/build/dev/shm",
     b!"/b/L/x/build/dev"] := by rfl
@@ -617,7 +626,7 @@ example : (w2.kt.mnts.filter (fun m => !atOrBelow (buildPath Example.cfg0 l2) m.
 example : ((unmountLayer Example.cfg0 d2 b!"x").run.run w2).2.kt.mnts.map (·.mp) =
     [b!"/", b!"/home", b!"/b/L/xy"] := by
   rw [(umount_no_call_refused Example.cfg0 d2 b!"x" w2 l2 rfl ⟨rfl, rfl, rfl⟩
-    ⟨by decide, by decide, by decide, by decide⟩ ⟨view2, by rfl, by decide⟩ (by decide) rfl).2.1]
+    ⟨⟨by decide, by decide, by decide, by decide⟩, by decide⟩ ⟨view2, by rfl, by decide⟩ (by decide) rfl).2.1]
   decide
 
 /-- GOAL A2: the administrator mounted something on `/b/L/x/build/dev/pts` after the probe: the
@@ -643,5 +652,69 @@ example : ((unmountLayer Example.cfg0 d2 b!"x").run.run w3).1 = .error (.err "sy
     (by decide) (by decide) .ebusy (by decide)
   exact ⟨h.1, h.2.2.2.2.1⟩
 end Example2
+
+/-- **umount_keeps_noHidden**: on every exit of `unmountLayer` a kernel table in which no mount
+    is hidden is still such a table (each successful `kumount` takes out a childless entry);
+    with `sysMount_noHidden` (Lemmas/UmountState: a mount on a target below which nothing is
+    mounted hides nothing, recursive binds included) the tables layercake produces by its own
+    calls from a table without hidden mounts have none, provided the configured imports name
+    a mountpoint before the mountpoints below it. -/
+theorem umount_keeps_noHidden (cfg : Config) (d : Defs) (name : Bytes) (w : World)
+    (h : NoHidden w.kt.mnts) : NoHidden ((unmountLayer cfg d name).run.run w).2.kt.mnts :=
+  Lc.Hoare.extract _ _ (unmountLayer_noHidden cfg d name) w h
+
+/-! ### a hidden submount: the order "deepest path first" does not work (finding
+    `umount-order-hidden-submount`, reproduced with the real binary on the real kernel) -/
+
+namespace Example3
+def hostP : Bytes := b!"/b/L/x/build/mnt/host"
+def subP : Bytes := b!"/b/L/x/build/mnt/host/sub"
+/-- the import on `mnt/host`, a mount made by hand on `mnt/host/sub`, then a second one stacked
+    on `mnt/host`: it covers the first and what hangs below it -/
+def m41 : KMnt := { id := 41, parent := 40, dev := b!"8:1", root := b!"/a", mp := subP, fstype := b!"ext4", source := b!"/dev/sda1" }
+def m42 : KMnt := { id := 42, parent := 40, dev := b!"8:1", root := b!"/b", mp := hostP, fstype := b!"ext4", source := b!"/dev/sda1" }
+def kt4 : KTable :=
+  { mnts := [ { id := 1, parent := 0, dev := b!"8:1", root := b!"/", mp := b!"/", fstype := b!"ext4", source := b!"/dev/sda1" },
+              { id := 40, parent := 1, dev := b!"8:1", root := b!"/src", mp := hostP, fstype := b!"ext4", source := b!"/dev/sda1" },
+              m41, m42 ],
+    nextId := 43 }
+def view4 : Mounts :=
+  { list := [ ⟨[], b!"/", [], [], b!"ext4", b!"rw", false, b!"8:1", [47]⟩,
+              ⟨[], hostP, [], [], b!"ext4", b!"rw", false, b!"8:1", b!"/src"⟩,
+              ⟨[], subP, [], [], b!"ext4", b!"rw", false, b!"8:1", b!"/a"⟩,
+              ⟨[], hostP, [], [], b!"ext4", b!"rw", false, b!"8:1", b!"/b"⟩ ] }
+def l4 : Layer := { name := b!"x", layerPath := b!"/b/L/x", state := S_mounted,
+                    mounts := getMountAndSubmounts view4 b!"/b/L/x/build" }
+def d4 : Defs := { layers := [l4], order := [b!"x"], mounts := view4 }
+def w4 : World := { kt := kt4 }
+end Example3
+
+/-- **umount_hidden_submount_witness**: a table that obeys the tree discipline and agrees with
+    the layer's view, an idle layer — and still `umount` fails, on every retry (the world is left
+    as it was): the first target of the order "deepest path first" is the covered mount, which the
+    kernel refuses with EINVAL; unmounting the covering mount first would work.  The table has a
+    hidden mount (`¬ NoHidden`), which is exactly what `umount_no_call_refused` excludes. -/
+theorem umount_hidden_submount_witness :
+    Plain Example3.w4 ∧ KWF Example3.w4.kt.mnts ∧
+    ViewAgrees Example3.l4 (buildPath Example.cfg0 Example3.l4) Example3.w4.kt ∧
+    findLayer Example3.d4 b!"x" = some Example3.l4 ∧ isBusy Example3.l4 false = false ∧
+    issueOrder Example3.l4 = [Example3.subP, Example3.hostP, Example3.hostP] ∧
+    ((unmountLayer Example.cfg0 Example3.d4 b!"x").run.run Example3.w4).1 = .error (.err "sys:EINVAL") ∧
+    ((unmountLayer Example.cfg0 Example3.d4 b!"x").run.run Example3.w4).2.kt = Example3.w4.kt ∧
+    (kumountSeq Example3.w4.kt [Example3.hostP, Example3.subP, Example3.hostP]).2.2 = none ∧
+    ¬ NoHidden Example3.w4.kt.mnts := by
+  have hfail : (kumountSeq Example3.w4.kt (issueOrder Example3.l4)) = ([], Example3.w4.kt, some .einval) := by
+    decide
+  have hplain : Plain Example3.w4 := ⟨rfl, rfl, rfl⟩
+  obtain ⟨hkt, _, _, _, herr⟩ := unmountLayer_plain Example.cfg0 Example3.d4 b!"x" Example3.w4 Example3.l4 rfl
+    hplain rfl (by decide)
+  refine ⟨hplain, ⟨by decide, by decide, by decide, by decide⟩, ⟨Example3.view4, by rfl, by decide⟩, rfl, rfl,
+    by rfl, ?_, ?_, by decide, ?_⟩
+  · exact herr .einval (by rw [hfail])
+  · rw [hkt, hfail]
+  · intro h
+    have := h.sib Example3.m42 (by simp [Example3.w4, Example3.kt4]) Example3.m41 (by simp [Example3.w4, Example3.kt4])
+      (by decide) (.inl rfl)
+    exact absurd this (by decide)
 
 end Lc.Props.C03
